@@ -670,6 +670,8 @@ struct Stats
     uint32_t slowest_us = 0;
     std::vector<Failure> failures;
     uint64_t failure_events = 0;
+    uint64_t hang_events = 0;
+    uint64_t slow_discards = 0;
     bool incomplete = false;
     std::string incomplete_why;
 };
@@ -870,8 +872,14 @@ static void consume(Worker &w, Stats &st, std::vector<Failure> &fails_out, bool 
             st.evaluations++;
             w.next_k = k; // last seen
             if (verdict == 1)
+            {
                 st.discards++;
-            if (us > st.slowest_us)
+                // a case that gave up on its own wall-clock budget ("inconclusive"): not a verdict, but a
+                // tree on which this keeps happening must not keep the campaign busy for hours
+                if (us > 2000000)
+                    st.slow_discards++;
+            }
+            else if (us > st.slowest_us)
                 st.slowest_us = us;
             if (nt && verdict == 0)
             {
@@ -944,6 +952,13 @@ static void write_replay(const Opts &o, const Target &t, Failure &f)
     f.replay = path;
 }
 
+// The watchdog: o.hang_s, stretched for targets whose ordinary cases are slow (100x the slowest passing case),
+// but never beyond 3x o.hang_s — an unbounded stretch let a tree that really hangs keep a campaign busy for hours.
+static double hang_limit_for(const Opts &o, const Stats &st)
+{
+    return std::max(o.hang_s, std::min(100.0 * st.slowest_us / 1e6, 3.0 * o.hang_s));
+}
+
 static void process_failure(const Opts &o, const Target &t, Stats &st, Failure f)
 {
     st.failure_events++;
@@ -952,7 +967,7 @@ static void process_failure(const Opts &o, const Target &t, Stats &st, Failure f
             return; // one representative per signature
     if ((int)st.failures.size() >= o.max_fail_sigs)
         return;
-    double hang_limit = std::max(o.hang_s, 100.0 * st.slowest_us / 1e6);
+    double hang_limit = hang_limit_for(o, st);
     if (!f.is_enum)
     {
         gen_bytes(o, t, f.k, f.bytes);
@@ -1044,7 +1059,7 @@ static void run_campaign(const Opts &o, const Target &t, Stats &st, bool is_enum
             break;
         poll(pfds.data(), pfds.size(), 200);
         uint64_t now = now_ns();
-        double hang_limit = std::max(o.hang_s, 100.0 * st.slowest_us / 1e6);
+        double hang_limit = hang_limit_for(o, st);
         for (size_t j = 0; j < pfds.size(); j++)
         {
             Worker &w = ws[idx[j]];
@@ -1060,6 +1075,8 @@ static void run_campaign(const Opts &o, const Target &t, Stats &st, bool is_enum
                     eof = true;
             }
             consume(w, st, pending, is_enum);
+            if (st.slow_discards >= 12)
+                abort_campaign = true;
             bool hung = false;
             if (!eof)
             {
@@ -1108,6 +1125,7 @@ static void run_campaign(const Opts &o, const Target &t, Stats &st, bool is_enum
                 f.is_enum = is_enum;
                 if (hung)
                 {
+                    st.hang_events++;
                     f.sig = "hang";
                     f.msg = fmt("case exceeded the watchdog (%.1f s)", hang_limit);
                 }
@@ -1134,6 +1152,10 @@ static void run_campaign(const Opts &o, const Target &t, Stats &st, bool is_enum
             for (auto &f : st.failures)
                 if (f.kind == "hang" && f.confirmed)
                     abort_campaign = true;
+            // hangs that do not reproduce in isolation (load, or a schedule-dependent hang of free-running
+            // threads) cost a full watchdog period each: stop after a handful
+            if (st.hang_events >= 6)
+                abort_campaign = true;
             w.next_k = resume_from;
             if (abort_campaign || resume_from >= total)
                 w.finished = true;
@@ -1152,7 +1174,9 @@ static void run_campaign(const Opts &o, const Target &t, Stats &st, bool is_enum
                     w.finished = true;
                 }
             st.incomplete = true;
-            st.incomplete_why = "stopped early after repeated failures";
+            st.incomplete_why = st.slow_discards >= 12 ? "stopped early: 12 cases gave up on their own wall-clock budget (inconclusive, not a verdict)"
+                                : st.hang_events >= 6  ? "stopped early after repeated watchdog hits"
+                                                       : "stopped early after repeated failures";
             break;
         }
     }
